@@ -5,6 +5,7 @@ package neuronjson
 
 import (
 	"fmt"
+	"strings"
 
 	"github.com/janelia-flyem/dvid/datastore"
 	"github.com/janelia-flyem/dvid/storage"
@@ -52,6 +53,9 @@ func (d *Data) DescribeTKeyClass(tkc storage.TKeyClass) string {
 
 // NewTKey returns a TKey for the annotation kv pairs.
 func NewTKey(key string) (storage.TKey, error) {
+	if strings.IndexByte(key, 0) >= 0 {
+		return nil, fmt.Errorf("key %q contains a zero byte, which is reserved as the key terminator", key)
+	}
 	return storage.NewTKey(keyAnnotation, append([]byte(key), 0)), nil
 }
 
